@@ -118,11 +118,40 @@ ExecService ==
     \cup [doc : {"valid2", "valid1"}, source : {"file"}, prior : {"none"}, addr : RelayAddrs, pk : {"none"}]
     \cup [doc : {"valid2"}, source : {"file", "http"}, prior : {"none"}, addr : {"good"}, pk : RelayKeys]
 
+(* AUXILIARY REQUESTS.  While it handles an operator-supplied TEMPLATE the code asks its surroundings   *)
+(* for the values of the markers.  The markers the code knows (grep '{{'): {{SLOT}} and                *)
+(* {{VALIDATORINDEX}} (dynamic graffiti provider: location and line; filled from the duty, no request)   *)
+(* and {{CLIENT}} (beaconblockproposer/standard.obtainGraffiti and                                      *)
+(* strategies/beaconblockproposal/best.Proposal: filled from the NODE VERSION REQUEST of the node that    *)
+(* is asked for the block).  That request is made through an OPTIONAL interface of the provider           *)
+(* (eth2client.NodeClientProvider: the HTTP client implements it, strategies, the multi client and every   *)
+(* mock of the repository do not) and it is an interface call of its own: the environment answers it, per  *)
+(* call and per node, independently of what it answers to the main request of the duty:                   *)
+(*   ok         the node names its client (the name has `clen` characters where that is a dimension)        *)
+(*   empty      a response whose client name is the empty string                                            *)
+(*   slow       the name arrives late (but before the strategy's soft time-out): neighbouring requests of    *)
+(*              the duty are already under way / answered                                                    *)
+(*   error      an error WITH A NIL RESPONSE (the node answers 503 to this one request)                      *)
+(*   timeout    the library's own time-out: nil response, an error that wraps context.DeadlineExceeded       *)
+(*   canceled   nil response, context.Canceled                                                               *)
+(*   notactive  nil response, the library's ErrNotActive (the client is marked inactive)                     *)
+(*   down       the node is REALLY down when the duty starts: the real library's connection check fails,     *)
+(*              NodeClient returns (nil, ErrNotActive) from the library itself and the main request to that   *)
+(*              node fails as well                                                                            *)
+(*   absent     the provider does not implement the optional interface at all (configuration of the          *)
+(*              instance, not input of a call)                                                                *)
+AuxAnswers == {"ok", "empty", "slow", "error", "timeout", "canceled", "notactive", "down"}
+AuxFaults == {"error", "timeout", "canceled", "notactive", "down"}
+AuxClass(a) == IF a \in AuxFaults THEN "fault" ELSE "value"
+AuxClasses == {"value", "fault"}
+NodeClient == AuxAnswers \cup {"absent"}
+
 (* dynamic graffiti provider (content fetched from an operator-supplied location)                *)
 (*  file     missing | error | empty | blank (only newlines) | spaces | crlf | one | many |       *)
 (*           template ({{SLOT}}/{{VALIDATORINDEX}}) | long (>32 bytes) | client ({{CLIENT}}) |     *)
 (*           nul (a line of NUL bytes) | unterminated ("{{SLOT") | utf8 (multi-byte characters     *)
-(*           across the 32 byte boundary)                                                          *)
+(*           across the 32 byte boundary) | allmarkers (every marker the code knows in one line:   *)
+(*           "{{CLIENT}}/{{SLOT}}/{{VALIDATORINDEX}}", and {{CLIENT}} twice in another)             *)
 (*  fallback fallback location: none | present | missing                                          *)
 (*  loc      location string: plain | templated                                                   *)
 (*  use      who consumes the provider: call (Graffiti() alone, result copied into 32 bytes) |     *)
@@ -130,13 +159,20 @@ ExecService ==
 (*           from this provider, expands {{CLIENT}} itself and asks a scripted node through the    *)
 (*           real client) | proposebest (the same with the real `best` proposal strategy between   *)
 (*           proposer and node: the strategy expands {{CLIENT}} per node)                          *)
+(*  nodeclient  what the node answers to the node version request behind {{CLIENT}}: NodeClient   *)
+(*           (na: use = call, there is no node)                                                    *)
 Graffiti ==
-    LET full == [file : {"missing", "error", "empty", "blank", "spaces", "crlf", "one", "many", "template", "long",
-                         "client", "nul", "unterminated", "utf8"},
-                 fallback : {"none", "present", "missing"},
-                 loc : {"plain", "templated"},
-                 use : {"call", "propose", "proposebest"}]
-    IN  {s \in full : s.use # "call" => s.loc = "plain"}
+    LET files == {"missing", "error", "empty", "blank", "spaces", "crlf", "one", "many", "template", "long",
+                  "client", "allmarkers", "nul", "unterminated", "utf8"}
+        consumers == {"propose", "proposebest"}
+    IN  \* the provider alone (no node in sight)
+        [file : files, fallback : {"none", "present", "missing"}, loc : {"plain", "templated"}, use : {"call"}, nodeclient : {"na"}]
+        \* END TO END with a node that names its client
+        \cup [file : files, fallback : {"none", "present", "missing"}, loc : {"plain"}, use : consumers, nodeclient : {"ok"}]
+        \* a line with {{CLIENT}} and every answer to the node version request it triggers
+        \cup [file : {"client", "allmarkers"}, fallback : {"none"}, loc : {"plain"}, use : consumers, nodeclient : NodeClient]
+        \* the well-formed file for a provider without the optional interface (probe of that configuration)
+        \cup [file : {"one"}, fallback : {"none"}, loc : {"plain"}, use : consumers, nodeclient : {"absent"}]
 
 (* builder-bid strategies (strategies/builderbid/{best,deadline}.BuilderBid) with the relay      *)
 (* reached through util.FetchBuilderClient and the real go-builder-client HTTP decoder           *)
@@ -161,23 +197,39 @@ BuilderBid ==
                       /\ (s.pkcfg # "none" => s.bid \in {"valid", "badsig", "nomessage"})
                       /\ (s.second = "samekey" => (s.pkcfg \in {"set", "badpoint"} \/ keyed(s)) /\ s.bid = "valid")}
 
-(* proposal `best` strategy (strategies/beaconblockproposal/best.Proposal)                        *)
+(* proposal strategies (strategies/beaconblockproposal/{best,first}.Proposal); the entry point keeps   *)
+(* its name "proposalbest"                                                                          *)
+(*  strat     best | first (the sibling that shares the interface; it passes the graffiti on as is)  *)
 (*  graffiti  none | plain | client ("{{CLIENT}}" zero-padded) | prefix ("vouch {{CLIENT}}") |    *)
-(*            full (all 32 bytes used, ends with {{CLIENT}})                                       *)
+(*            full (all 32 bytes used, ends with {{CLIENT}}) | twice ("{{CLIENT}}{{SLOT}}{{CLIENT}}": *)
+(*            the marker twice and a marker this code does not expand) | cut (a marker cut off by    *)
+(*            the 32 byte boundary: "...{{CLIEN")                                                    *)
 (*  clen      length of the client name the node reports (NodeClient), "0".."40"                   *)
-(*  nodeclient ok | error                                                                          *)
-(*  proposal  what the node's Proposal call delivers: ok | nildata | error | zerofee | nilvalues   *)
+(*  nodeclient, nodeclient1  what node 0 / node 1 answers to the node version request behind        *)
+(*            {{CLIENT}}: NodeClient (nodeclient1 = na: there is one node only)                      *)
+(*  proposal  what node 0's Proposal call delivers: ok | nildata | error | zerofee | nilvalues      *)
 (*  n         number of beacon nodes                                                              *)
 ProposalBest ==
-    LET full == [graffiti : {"none", "plain", "client", "prefix", "full"},
-                 clen : {"0", "1", "4", "5", "6", "8", "10", "11", "22", "23", "32", "40"},
-                 nodeclient : {"ok", "error"},
-                 proposal : {"ok", "nildata", "error", "zerofee", "nilvalues"},
-                 n : {"1", "2"}]
-        templ(s) == s.graffiti \in {"client", "prefix", "full"}
-    IN  {s \in full : /\ (~templ(s) => s.clen = "10" /\ s.nodeclient = "ok")
-                      /\ (templ(s) /\ s.nodeclient = "error" => s.clen = "10" /\ s.proposal = "ok")
-                      /\ (templ(s) /\ s.nodeclient = "ok" => s.proposal \in {"ok", "nilvalues"})}
+    LET clens == {"0", "1", "4", "5", "6", "8", "10", "11", "22", "23", "32", "40"}
+        proposals == {"ok", "nildata", "error", "zerofee", "nilvalues"}
+        templ == {"client", "prefix", "full", "twice"}
+        PS(st, g, c, a, b, p) ==
+            [strat : st, graffiti : g, clen : c, nodeclient : a, nodeclient1 : {"na"}, proposal : p, n : {"1"}]
+            \cup [strat : st, graffiti : g, clen : c, nodeclient : a, nodeclient1 : b, proposal : p, n : {"2"}]
+        oneOdd(s) == s.n = "1" \/ s.nodeclient = s.nodeclient1 \/ s.nodeclient = "ok" \/ s.nodeclient1 = "ok"
+    IN  \* what the node delivers as a proposal, no template in the graffiti
+        PS({"best", "first"}, {"none", "plain", "cut"}, {"10"}, {"ok"}, {"ok"}, proposals)
+        \* client names of every length
+        \cup PS({"best"}, templ, clens, {"ok"}, {"ok"}, {"ok", "nilvalues"})
+        \* every answer to the node version request, per node: the full matrix for one template ...
+        \cup PS({"best"}, {"prefix"}, {"10"}, NodeClient, NodeClient, {"ok"})
+        \cup {s \in PS({"best"}, {"prefix"}, {"10"}, NodeClient, NodeClient, {"error"}) : s.n = "1" \/ s.nodeclient = s.nodeclient1}
+        \* ... and for the other templates one node at a time / both alike
+        \cup {s \in PS({"best"}, templ \ {"prefix"}, {"10"}, NodeClient, NodeClient, {"ok"}) : oneOdd(s)}
+        \* the sibling strategy with a template in the graffiti
+        \cup {s \in PS({"first"}, {"prefix"}, {"10"}, NodeClient, NodeClient, {"ok"}) : s.n = "1" \/ s.nodeclient = s.nodeclient1}
+        \* the well-formed input for providers without the optional interface (probes of those configurations)
+        \cup PS({"best", "first"}, {"plain"}, {"10"}, {"ok", "absent"}, {"ok", "absent"}, {"ok"})
 
 (* proposer (services/beaconblockproposer/standard.Propose); the proposal comes through the real  *)
 (* go-eth2-client HTTP decoder (v3 block production endpoint), unblinding through the real        *)
@@ -190,18 +242,23 @@ ProposalBest ==
 (*           badvalues (value headers not numbers)                                                 *)
 (*  unblind  what the relay answers to the unblinding request: ok | datanull | emptyobj |          *)
 (*           notjson | http400 | http500 | wrongver                                                *)
-(*  graffiti none | error | short | client                                                         *)
+(*  graffiti none | error | short | client | twice ("{{CLIENT}}{{SLOT}}{{CLIENT}}") | longclient (39    *)
+(*           bytes, the marker behind byte 32)                                                      *)
+(*  nodeclient  what the node answers to the node version request behind {{CLIENT}}: NodeClient      *)
 Proposer ==
     LET full == [auction : {"none", "failed", "empty", "won", "cannotunblind"},
                  ver : {"phase0", "altair", "bellatrix", "capella", "deneb"},
                  blinded : {"y", "n"},
                  body : {"valid", "datanull", "wrongslot", "notjson", "novalues", "badvalues"},
                  unblind : {"ok", "datanull", "emptyobj", "notjson", "http400", "http500", "wrongver"},
-                 graffiti : {"none", "error", "short", "client"}]
+                 graffiti : {"none", "error", "short", "client", "twice", "longclient"},
+                 nodeclient : NodeClient]
+        templ(s) == s.graffiti \in {"client", "twice", "longclient"}
     IN  {s \in full : /\ (s.body # "valid" => s.ver = "deneb" /\ s.auction \in {"none", "won"} /\ s.graffiti = "none")
                       /\ (s.unblind # "ok" => s.auction = "won" /\ s.blinded = "y" /\ s.body = "valid"
                                                /\ s.ver \in {"bellatrix", "capella", "deneb"} /\ s.graffiti = "none")
-                      /\ (s.graffiti # "none" => s.ver = "deneb" /\ s.auction = "none" /\ s.blinded = "n")}
+                      /\ (s.graffiti # "none" => s.ver = "deneb" /\ s.auction = "none" /\ s.blinded = "n")
+                      /\ (~templ(s) => s.nodeclient = "ok" \/ (s.nodeclient = "absent" /\ s.graffiti = "short"))}
 
 (* attester (services/attester/standard.Attest); attestation data through the real HTTP decoder   *)
 (*  body   valid | datanull | emptyobj | nosource | notarget | nullsource | nulltarget |           *)
@@ -317,5 +374,15 @@ Uses(ep, s) ==
     CASE Decides(ep) -> {"lookup"}
       [] ep = "execservice" -> {"lookup", "register", "auction"}
       [] OTHER -> {}
+
+(* The auxiliary requests an input may trigger, with the answer the environment has chosen for each      *)
+(* (whether, when and how often the code really asks is the code's business).                            *)
+NodeClientAt(at, a) == IF a \in AuxAnswers THEN {[req |-> "nodeclient", at |-> at, answer |-> a]} ELSE {}
+AuxRequests(ep, s) ==
+    CASE ep = "proposalbest" -> NodeClientAt("node0", s.nodeclient) \cup NodeClientAt("node1", s.nodeclient1)
+      [] ep = "proposer" -> NodeClientAt("node0", s.nodeclient)
+      [] ep = "graffiti" -> NodeClientAt("node0", s.nodeclient)
+      [] OTHER -> {}
+AuxUniverse == [req : {"nodeclient"}, at : {"node0", "node1"}, answer : AuxAnswers]
 
 =============================================================================
